@@ -33,9 +33,10 @@ inductive Cond
   | ff
   | leafIn (ls : List LeafId)
   | cmp (op : CmpOp) (a b : Expr)
-  /-- `other.is_halt().get()`: both answers are possible; the answer `true` tells us the other actor has
-      processed everything sent so far and is halted: ghost variable `v := 0`. -/
-  | askHalt (v : VarId)
+  /-- a synchronous question to another actor (`other.is_x().get()`): both answers are possible; each answer
+      refines the knowledge (ghost) variables about that actor: it is given after everything sent so far has
+      been processed. -/
+  | ask (onTrue : List (VarId × Int)) (onFalse : List (VarId × Int))
   | not (c : Cond)
   | and (a b : Cond)
   | or (a b : Cond)
@@ -72,7 +73,7 @@ structure St where
   leaf : LeafId
   vars : List Int            -- device outputs written by this actor, ghost "last request" variables, last published state
   armed : Option MsgId       -- the delayed call carrying the current token (exact: do_delay/do_cancel invalidate)
-  pend : Option MsgId        -- a MUST-pending unguarded self-tell (the most recent one; an under-approximation)
+  pend : List MsgId          -- MUST-pending unguarded self-tells issued since the current phase was entered (sorted set)
   bad : Bool                 -- an `opaque` statement was executed
   deriving Repr, DecidableEq, Inhabited, Hashable
 
@@ -115,7 +116,9 @@ def evalCond (locals : List Int) : Cond → St → List (Bool × St)
       match evalExpr locals s.vars a, evalExpr locals s.vars b with
       | some x, some y => [(cmpInt op x y, s)]
       | _, _ => [(true, s), (false, s)]
-  | .askHalt v, s => [(true, { s with vars := setNth s.vars v 0 }), (false, s)]
+  | .ask t f, s =>
+      [(true, { s with vars := t.foldl (fun vs (v, x) => setNth vs v x) s.vars }),
+       (false, { s with vars := f.foldl (fun vs (v, x) => setNth vs v x) s.vars })]
   | .not c, s => (evalCond locals c s).map fun (b, s') => (!b, s')
   | .and a b, s =>
       (evalCond locals a s).flatMap fun (x, s') =>
@@ -151,7 +154,7 @@ def exec : Stmt → List Int → St → List (Flow × St)
       vals.flatMap fun v => exec body (l ++ [v]) s
   | .delay m, _, s => [(.normal, { s with armed := some m })]
   | .cancel, _, s => [(.normal, { s with armed := none })]
-  | .selfTell m, _, s => [(.normal, { s with pend := some m })]
+  | .selfTell m, _, s => [(.normal, { s with pend := insertSorted m s.pend })]
   | .ret, _, s => [(.returned, s)]
   | .stopRepeat, _, s => [(.stopped, s)]
   | .doRepeat body poll, l, s =>
@@ -177,6 +180,8 @@ structure Row where
   internal : Bool
   pre : List Nat      -- callback ids
   post : List Nat
+  /-- guard literals common to every guard valuation under which this row fires: (guard id, required value) -/
+  req : List (Nat × Bool)
   deriving Repr, DecidableEq, Inhabited
 
 structure ActorDesc where
@@ -198,6 +203,11 @@ structure ActorDesc where
   plainMsgs : List MsgId
   /-- messages some `do_delay`/`@do_repeat` names -/
   delayedMsgs : List MsgId
+  /-- poll methods (`do_repeat_<phase>`) with the leaves of the phase they belong to -/
+  pollOwner : List (MsgId × List LeafId)
+  /-- knowledge variables that are forgotten whenever a handler ends in one of the given leaves (phases in which
+      the other actor may start on its own or on a third party's request) -/
+  havoc : List (VarId × List LeafId × Int)
   deriving Repr, Inhabited
 
 def runSeq (cbs : List Stmt) (ids : List Nat) (s : St) : List St :=
@@ -209,9 +219,9 @@ def fire (D : ActorDesc) (t : MsgId) (s : St) : List St :=
   let ignored := if D.total.contains (s.leaf, t) then [] else [s]
   ignored ++ rs.flatMap fun r =>
     (runSeq D.callbacks r.pre s).flatMap fun s1 =>
-      runSeq D.callbacks r.post (if r.internal then s1 else { s1 with leaf := r.dest })
+      runSeq D.callbacks r.post (if r.internal then s1 else { s1 with leaf := r.dest, pend := [] })
 
-def removeMsg (m : MsgId) (p : Option MsgId) : Option MsgId := if p == some m then none else p
+def removeMsg (m : MsgId) (l : List MsgId) : List MsgId := l.filter (· != m)
 
 /-- run message `m` (a trigger or a method) as a plain call -/
 def call (D : ActorDesc) (m : MsgId) (s : St) : List St :=
@@ -227,16 +237,19 @@ inductive Msg
   | delayed (m : MsgId)
   deriving Repr, DecidableEq, Inhabited
 
+def applyHavoc (D : ActorDesc) (s : St) : St :=
+  { s with vars := D.havoc.foldl (fun vs (v, ls, x) => if ls.contains s.leaf then setNth vs v x else vs) s.vars }
+
 def step (D : ActorDesc) (s : St) : Msg → List St
-  | .plain m => call D m { s with pend := removeMsg m s.pend }
+  | .plain m => (call D m { s with pend := removeMsg m s.pend }).map (applyHavoc D)
   | .delayed m =>
-      if s.armed == some m then call D m { s with armed := none } else [s]
+      if s.armed == some m then (call D m { s with armed := none }).map (applyHavoc D) else [s]
 
 def allMsgs (D : ActorDesc) : List Msg :=
   D.plainMsgs.map Msg.plain ++ D.delayedMsgs.map Msg.delayed
 
 def initSt (D : ActorDesc) : St :=
-  { leaf := D.initLeaf, vars := D.initVars, armed := none, pend := none, bad := false }
+  { leaf := D.initLeaf, vars := D.initVars, armed := none, pend := [], bad := false }
 
 /-- Reachability for EVERY message sequence (any length, any order, any environment). -/
 inductive Reach (D : ActorDesc) : St → Prop
@@ -246,7 +259,7 @@ inductive Reach (D : ActorDesc) : St → Prop
 /-- cheap fingerprint used to pre-filter before the structural comparison (no injectivity needed) -/
 def fp (s : St) : Nat :=
   let a := match s.armed with | none => 0 | some m => m + 1
-  let p := match s.pend with | none => 0 | some m => m + 1
+  let p := s.pend.foldl (fun acc m => acc * 67 + m + 1) 0
   s.vars.foldl (fun acc v => acc * 131 + (v + 2).toNat) (a * 211 + p)
 
 /-- The certificate: candidate reachable states, bucketed by leaf, each with its fingerprint. -/
